@@ -30,15 +30,24 @@ import (
 var knownFuncsTxt string
 
 var knownFuncs map[string]bool
+var knownSigs map[string]string
 
 var theProgram *Program
 
 func knownFunc(key string) bool {
 	if knownFuncs == nil {
 		knownFuncs = map[string]bool{}
+		knownSigs = map[string]string{}
 		for _, l := range strings.Split(knownFuncsTxt, "\n") {
 			l = strings.TrimSpace(l)
-			if l != "" {
+			if l == "" {
+				continue
+			}
+			// "FuncKey<TAB>signature" (the signature is used to pair renamed functions)
+			if k := strings.Index(l, "\t"); k >= 0 {
+				knownFuncs[l[:k]] = true
+				knownSigs[l[:k]] = l[k+1:]
+			} else {
 				knownFuncs[l] = true
 			}
 		}
@@ -428,6 +437,41 @@ func helperReturnFacts(g *ssa.Function, k int, want string, depth int, conv bool
 		for _, f := range gf.FactsAt(r.Block()) {
 			here[f.String()] = f
 		}
+		// a boolean result that is a φ of short-circuit operands (a && b, a || b): the wanted
+		// value can only arrive over the edges whose operand may have that value, and when
+		// there is exactly one such edge its facts — and the operand itself — are known
+		if want == "true" || want == "false" {
+			if phi, ok := v.(*ssa.Phi); ok && phi.Block() == r.Block() {
+				var cands []int
+				for e, ev := range phi.Edges {
+					if c, isC := ev.(*ssa.Const); isC && c.Value != nil && c.Value.ExactString() != want {
+						continue
+					}
+					cands = append(cands, e)
+				}
+				if len(cands) == 1 {
+					e := cands[0]
+					for _, f := range gf.FactsOnEdge(phi.Block().Preds[e], phi.Block()) {
+						here[f.String()] = f
+					}
+					if _, isC := phi.Edges[e].(*ssa.Const); !isC {
+						f := factOf(gf.Term(phi.Edges[e]), want == "true")
+						here[f.String()] = f
+						if m, ok := f.Mirror(); ok {
+							here[m.String()] = m
+						}
+					}
+				}
+			}
+			// a plain comparison returned as the result
+			if bo, ok := v.(*ssa.BinOp); ok {
+				f := factOf(gf.Term(bo), want == "true")
+				here[f.String()] = f
+				if m, ok := f.Mirror(); ok {
+					here[m.String()] = m
+				}
+			}
+		}
 		// a tail call of another new helper contributes that helper's return facts
 		if h := tailHelper(r); h != nil && h != g {
 			for _, f := range helperReturnFacts(h, k, want, depth+1, conv) {
@@ -750,4 +794,29 @@ func substAlong(ch []*ssa.Call, target *ssa.Function, t *Term, conv bool) *Term 
 		t = substParams(t, argTerms(newTBMode(conv), ch[i]))
 	}
 	return t
+}
+
+// knownRootsOf: the known functions from which new helper fn is reached (through new helpers only).
+func knownRootsOf(fn *ssa.Function) []*ssa.Function {
+	seen := map[*ssa.Function]bool{}
+	var out []*ssa.Function
+	var rec func(f *ssa.Function, d int)
+	rec = func(f *ssa.Function, d int) {
+		if d > maxHelperDepth || seen[f] {
+			return
+		}
+		seen[f] = true
+		if !isNewHelper(f) {
+			out = append(out, f)
+			return
+		}
+		for _, c := range callSitesOfHelper(f) {
+			rec(c.Parent(), d+1)
+		}
+	}
+	rec(fn, 0)
+	if len(out) == 1 && out[0] == fn {
+		return nil
+	}
+	return out
 }
